@@ -158,7 +158,7 @@ def required_class(t, key, s):
         return "list" if (key == "expression" and "expression" in kinds) else ("quoted" if not gen.expression_capable(p) else "either")
     if HEX.match(s) and "hexcolor" in kinds:
         return "quoted"
-    if st.endswith("'i") or st.endswith('"i') or st.startswith("`"):
+    if (len(st) >= 3 and st[-1] == "i" and st[0] in "\"'" and st[-2] == st[0]) or st.startswith("`"):
         return "either"
     if "string" in kinds or "hexcolor" in kinds:
         return "quoted"
